@@ -285,6 +285,8 @@ class OpRunner(object):
             kw = self._kw(op, (('tt', 'transport_timeout_s'), ('rt', 'read_timeout_s'), ('at', 'auth_timeout_s')))
             return d.connect(rsa_keys=self._keys(op), auth_callback=self._auth_cb(op, rec), **kw)
         if k == 'close':
+            if op.get('fail'):
+                self.run.link.fail_next_close = True      # the transport's own close() raises
             return d.close()
         if k == 'available':
             return d.available
@@ -329,6 +331,31 @@ class OpRunner(object):
             if gen is None:
                 return []
             return [item for item in gen]
+        if k == 'ss_next':
+            # take up to n items and leave the generator suspended in the middle of the stream
+            gen = self.files.get('ss_gen')
+            out = []
+            if gen is not None:
+                try:
+                    for _ in range(op.get('n', 1)):
+                        out.append(next(gen))
+                except StopIteration:
+                    self.files.pop('ss_gen', None)
+                except BaseException:
+                    self.files.pop('ss_gen', None)
+                    raise
+            return out
+        if k == 'ss_drop':
+            # let go of a (possibly half-read) generator: close() it, or just drop the last reference
+            gen = self.files.pop('ss_gen', None)
+            if gen is not None:
+                if op.get('how', 'close') == 'close':
+                    gen.close()
+                else:
+                    del gen
+                    import gc
+                    gc.collect()
+            return None
         if k == 'list':
             return d.list(op['path'], **self._kw(op, T[:2]))
         if k == 'stat':
@@ -443,6 +470,8 @@ class OpRunner(object):
             kw = self._kw(op, (('tt', 'transport_timeout_s'), ('rt', 'read_timeout_s'), ('at', 'auth_timeout_s')))
             return await d.connect(rsa_keys=self._keys(op), auth_callback=self._auth_cb(op, rec), **kw)
         if k == 'close':
+            if op.get('fail'):
+                self.run.link.fail_next_close = True
             return await d.close()
         if k == 'available':
             return d.available
@@ -484,6 +513,32 @@ class OpRunner(object):
             async for item in gen:
                 out.append(item)
             return out
+        if k == 'ss_next':
+            gen = self.files.get('ss_gen')
+            out = []
+            if gen is not None:
+                try:
+                    for _ in range(op.get('n', 1)):
+                        out.append(await gen.__anext__())
+                except StopAsyncIteration:
+                    self.files.pop('ss_gen', None)
+                except BaseException:
+                    self.files.pop('ss_gen', None)
+                    raise
+            return out
+        if k == 'ss_drop':
+            gen = self.files.pop('ss_gen', None)
+            if gen is not None:
+                if op.get('how', 'close') == 'close':
+                    await gen.aclose()
+                else:
+                    del gen
+                    import gc
+                    gc.collect()
+                    # the loop's asyncgen finaliser schedules aclose(); let it run
+                    for _ in range(4):
+                        await asyncio.sleep(0)
+            return None
         if k == 'list':
             return await d.list(op['path'], **self._kw(op, T[:2]))
         if k == 'stat':
